@@ -47,6 +47,44 @@ class G:
         return G("poison")
 
 
+class Comp:
+    """component token: field `i` of the abstract aggregate value `g` (stands for the field's whole content)"""
+    __slots__ = ("g", "i")
+
+    def __init__(self, g, i):
+        self.g, self.i = g, i
+
+    def __repr__(self):
+        return "Comp(%r.%d)" % (self.g, self.i)
+
+
+def _explode(self, ex, t):
+    fields = t.u.fields
+    if self.kind == "uninit":
+        return [ex.zero(ex.prog.T(f["type"])) for f in fields]
+    if self.kind != "vec":
+        raise ExecError("field access into a poisoned group value")
+    return [Comp(self, i) for i in range(len(fields))]
+
+
+G.opaque_explode = _explode
+
+
+def implode(ex, cells, t):
+    """a list of field cells standing for an abstract aggregate: all components of one value in their own positions -> that
+    value; all zero -> the Go zero value; anything else is a point assembled from foreign parts (not followed)"""
+    comps = [c for c in cells if isinstance(c, Comp)]
+    if comps and len(comps) == len([f for f in t.u.fields if ex.prog.T(f["type"]).k == "named" and ex.prog.T(f["type"]).name.endswith("field.Element")]):
+        g = comps[0].g
+        if all(c.g is g for c in comps) and all(cells[c.i] is c for c in comps):
+            return g
+    if not comps:
+        z = [ex.zero(ex.prog.T(f["type"])) for f in t.u.fields]
+        if cells == z:
+            return G("uninit")
+    raise ExecError("abstract point assembled from components of different values: %r" % (cells,))
+
+
 UNINIT = lambda: G("uninit")
 POISON = lambda: G("poison")
 
@@ -122,6 +160,12 @@ class Group:
 
     def get(self, path, p):
         c = self.ex.load(path, p)
+        if isinstance(c, tuple):
+            # the abstract value was accessed field by field: re-assemble
+            cells, idx = self.ex._walk(path, p)
+            g = implode(self.ex, cells[idx], self.ex._type_at(p, None) if p.path else self.ex.meta[p.obj].type)
+            cells[idx] = g
+            return g
         if not isinstance(c, G):
             raise ExecError("group mode: cell holds %r" % (c,))
         return c
